@@ -75,8 +75,8 @@ func goClosureIn(fn *ssa.Function) *ssa.Function {
 			if f, ok := mc.Fn.(*ssa.Function); ok && out == nil {
 				out = f
 			}
-		} else if f := g.Call.StaticCallee(); f != nil && f.Parent() == fn && out == nil {
-			out = f
+		} else if f := g.Call.StaticCallee(); f != nil && f.Blocks != nil && out == nil {
+			out = f // `go gc.runCycle(ctx, …)`: the cycle is a method instead of a closure
 		}
 	})
 	return out
